@@ -332,6 +332,16 @@ def resolve_loops(ob, slot_dir, logdir, env):
         for pat, bound in ob["loops"].items():
             if pat in fn or pat in lid:
                 res[lid] = max(bound, res.get(lid, 0))
+    # recursion bounds: `--unwindset <function id>:<n>` bounds the recursion depth of that function
+    # (CBMC checks it with a recursion unwinding assertion); ids are mangled, looked up by pretty name
+    if ob.get("recurse"):
+        fl = subprocess.run(["goto-instrument", "--list-goto-functions", gb], stdout=subprocess.PIPE,
+                            stderr=subprocess.DEVNULL, text=True).stdout
+        for m in re.finditer(r"^(.*?) /\* (\S+) \*/$", fl, re.M):
+            pretty, mangled = m.group(1), m.group(2)
+            for pat, bound in ob["recurse"].items():
+                if pretty == pat or pretty.endswith("::" + pat):
+                    res[mangled] = bound
     return res
 
 
@@ -343,7 +353,8 @@ def run_obligation(ob, slot_dir, logdir, playback=False):
     env = base_env()
     for k, v in ob.get("env", {}).items():
         env[k] = str(v)
-    if ob.get("loops"):
+    if ob.get("loops") or ob.get("recurse"):
+        ob.setdefault("loops", {})
         us = resolve_loops(ob, slot_dir, logdir, env)
         if us is not None:
             ob["unwindset"] = us
@@ -482,6 +493,7 @@ def build_replay(profile, logdir):
     if profile == "release":
         cmd.append("--release")
     env = base_env()
+    env["RUSTFLAGS"] = "--cfg grin_verif"  # the cfg-guarded hooks of /repo (MANIFEST.hooks)
     with open(os.path.join(logdir, "native_build_%s.log" % profile), "w") as f:
         p = subprocess.run(cmd, cwd=CRATE, env=env, stdout=f, stderr=subprocess.STDOUT)
     if p.returncode != 0:
